@@ -66,6 +66,18 @@ package fit
 //@   ensures [sentinel] r == (l.semicircles == 0x7FFFFFFF)
 //@   assigns nothing
 
+//@@ C17: degrees = semicircles x 180 / 2^31 (exact: the product has at most 39 significant bits), NaN iff invalid
+//@ func (l Latitude) Degrees() (r float64)
+//@   props C17
+//@   ensures [nan] isNaN(r) <==> l.semicircles == 0x7FFFFFFF
+//@   ensures [value] l.semicircles != 0x7FFFFFFF ==> r*2147483648.0 == float64(l.semicircles)*180.0
+//@   assigns nothing
+//@ func (l Longitude) Degrees() (r float64)
+//@   props C17
+//@   ensures [nan] isNaN(r) <==> l.semicircles == 0x7FFFFFFF
+//@   ensures [value] l.semicircles != 0x7FFFFFFF ==> r*2147483648.0 == float64(l.semicircles)*180.0
+//@   assigns nothing
+
 //@ func (l Latitude) Semicircles() (r int32)
 //@   props C17
 //@   ensures [stored] r == l.semicircles
@@ -283,6 +295,8 @@ package fit
 
 //@ func (d *decoder) readFull(p []byte) (err error)
 //@   props C01 C10 C11
+//@   slow inv 60
+//@   slow partial 60
 //@   ensures [not-clean-eof] !iserr(err, errReadSize)
 //@   locals n int
 //@   requires inv_bytes(d) && inv_io(d)
@@ -482,6 +496,7 @@ package fit
 //@   assigns nothing
 
 //@ func (d *decoder) decodeHeader() (err error)
+//@   slow crc 60
 //@   requires [sum0] {C04} dyncrc16.GhostSum(d.crc) == 0
 //@   ensures [hdr-ok] {C04} err == nil ==> hdrOK(d.h)
 //@   gassign {C04} crcstart(d) := old(pos(d.r))
@@ -542,6 +557,7 @@ package fit
 
 //@ func (d *decoder) validateFieldDef(gmsgnum MesgNum, dfield fieldDef) (err error)
 //@   props C01
+//@   slow unlisted 90
 //@   ensures [not-clean-eof] !iserr(err, errReadSize)
 //@   split profile gmsgnum dfield.num compat
 //@   reveal compat, tables
@@ -583,6 +599,8 @@ package fit
 //@ pred defs_latest(d *decoder) := forall s in 0..16 :: d.defmsgs[s] == lastDef(d, s)
 
 //@ func (d *decoder) parseDefinitionMessage(recordHeader byte) (res *defmsg, err error)
+//@   slow inv 90
+//@   slow wf 90
 //@   slow content 90
 //@   requires [content] {C02 C04 C12 C13} inv_content(d)
 //@   requires [crc] {C04} inv_crc(d)
@@ -1123,6 +1141,7 @@ package fit
 //@   assigns d.file.FileId, d.file.FileCreator, d.file.TimestampCorrelation, d.file.fieldDescriptionMsgs, d.file.developerDataIdMsgs, ifaceobj(d.file.msgAdder)
 
 //@ func (d *decoder) decodeFileData() (err error)
+//@   slow variant 90
 //@   ensures [added] {C03} nadded(d.file)-old(nadded(d.file)) == nvalid(d)-old(nvalid(d))
 //@   assigns {C03} nadded(d.file), nvalid(d)
 //@   loop 0 invariant [added] {C03} nadded(d.file)-old(nadded(d.file)) == nvalid(d)-old(nvalid(d))
@@ -1196,6 +1215,7 @@ package fit
 
 //@ func (d *decoder) decode(r io.Reader, headerOnly bool, fileIDOnly bool, crcOnly bool) (err error)
 //@   props C01 C10 C11
+//@   slow bounded-crconly 90
 //@   slow bounded-frame 90
 //@   slow exact-frame 90
 //@   requires [reader] r != nil
